@@ -346,6 +346,7 @@ func c15Scenarios(tier string) []Scenario {
 		return []Scenario{
 			{"2x1", []string{"R", "W"}, lv([3]int{0, 0, 0}, [3]int{1, 1, 1}, [3]int{2, 1, 2}, [3]int{2, 2, 3}, [3]int{3, 2, 4})},
 			{"2x2", []string{"RS", "WP"}, lv([3]int{0, 0, 0}, [3]int{1, 1, 1}, [3]int{2, 1, 2}, [3]int{3, 2, 3})},
+			{"2xR", []string{"R", "R"}, lv([3]int{0, 0, 0}, [3]int{1, 1, 1}, [3]int{2, 1, 2}, [3]int{3, 2, 3})},
 			{"3x1", []string{"R", "W", "R"}, lv([3]int{0, 0, 0}, [3]int{1, 1, 1}, [3]int{2, 1, 2}, [3]int{3, 2, 3})},
 			{"3x211", []string{"RS", "W", "P"}, lv([3]int{0, 0, 0}, [3]int{1, 1, 1}, [3]int{2, 1, 2}, [3]int{3, 2, 3})},
 		}
@@ -353,6 +354,7 @@ func c15Scenarios(tier string) []Scenario {
 	return []Scenario{
 		{"2x1", []string{"R", "W"}, lv([3]int{0, 0, 0}, [3]int{1, 1, 1}, [3]int{2, 1, 2}, [3]int{2, 2, 3})},
 		{"2x2", []string{"RS", "WP"}, lv([3]int{0, 0, 0}, [3]int{1, 1, 1}, [3]int{2, 1, 2})},
+		{"2xR", []string{"R", "R"}, lv([3]int{0, 0, 0}, [3]int{1, 1, 1}, [3]int{2, 1, 2})}, // two reads in flight: replies decoded back to back
 	}
 }
 
@@ -375,7 +377,7 @@ func checkC15() int {
 	defer c.pool.close()
 	for _, v := range codec.Violations {
 		if c.viol[v.Sig] == nil {
-			c.viol[v.Sig] = &foundV{v: v, job: Job{Harness: "codec"}}
+			c.viol[v.Sig] = &foundV{v: v, job: Job{Harness: "codec", CodecSig: v.Sig}}
 		}
 		c.viol[v.Sig].count++
 	}
